@@ -16,7 +16,8 @@ Core Lean only.
     process_sample              `load_read_info`, then `process_assigned_reads` on `saves_file`             `processSaved`
     construct_models_in_parallel   the reading loop of the multimapper file (`a.chr_id == chr_id`), the FULL loader,
                                 `ReadAssignmentLoader.get_next`, the counters                               `constructChr`
-    a run restarted with `--read_assignments` skips `collect_reads` (and with it `count_unaligned_reads`):   `restartRun`
+    a run restarted with `--read_assignments` skips `collect_reads` (and with it `count_unaligned_reads`) and
+                                takes the number of unaligned reads from `_info` (`load_unaligned_reads`, fix cc73ffc) `restartRun`
 
 MODELS: everything above.  PARAMETERS (`Env`, arbitrary functions): the interning of strings as numbers (`intern`, with
 `name` to print them again – the C08/C02/C12 models work on interned ids), `derive` = what `GeneInfo.deserialize`
@@ -167,9 +168,11 @@ def infoOf (readGroups : List String) (d : List (Nat × List Rec) × Nat × Nat)
     readGroups := readGroups }
 
 /-- `collect_reads` of a fresh run: every chromosome's dump is written by the printer, the per-read lists are built,
-    the multimappers are resolved, the verdicts and the totals are written.
+    the multimappers are resolved, the verdicts and the totals are written; `unaligned` = what
+    `alignment_stat_counter` holds for `AlignmentType.unaligned` after `count_unaligned_reads` (last field of `_info`).
     `none` = something raises (a writer, a loader, the resolver, `multimap_dumper[a.chr_id]`). -/
-def collectReads (E : Env) (highMemory : Bool) (readGroups : List String) (chroms : List ChrIn) : Option Saved :=
+def collectReads (E : Env) (highMemory : Bool) (readGroups : List String) (unaligned : Nat) (chroms : List ChrIn) :
+    Option Saved :=
   match chroms.mapM (fun c => writeStream (ungroup c.groups)) with
   | none => none
   | some saves =>
@@ -182,7 +185,7 @@ def collectReads (E : Env) (highMemory : Bool) (readGroups : List String) (chrom
         if unknownChr E chroms resolved then none
         else
           match chroms.mapM (fun c => writeMultimap (multimapLists E (E.intern c.name) resolved)),
-                writeSaveInfo (infoOf readGroups d resolved) with
+                writeInfoFile (infoOf readGroups d resolved) (unaligned : Int) with
           | some mms, some info => some { info := info, chrs := (saves.zip mms).map (fun x => ⟨x.1, x.2⟩) }
           | _, _ => none
 
@@ -222,13 +225,19 @@ def processSaved (E : Env) (cfg : Config) (unmapped : List Nat) (names : List St
     `collect_reads`): it saves, then works from what it saved – in BOTH memory modes the second half reads the dumps -/
 def savingRun (E : Env) (cfg : Config) (readGroups : List String) (unmapped : List Nat) (chroms : List ChrIn) :
     Option (Saved × RunOut) :=
-  match collectReads E cfg.highMemory readGroups chroms with
+  match collectReads E cfg.highMemory readGroups (countUnaligned unmapped) chroms with
   | none => none
   | some files => (processSaved E cfg unmapped (chroms.map (·.name)) files).map (fun o => (files, o))
 
 /-- a run restarted with `--read_assignments <prefix>`: `collect_reads` is skipped, `alignment_stat_counter` is the
-    fresh one of `process_sample` – nothing is known about unaligned reads (the saved files do not hold the number) -/
+    fresh one of `process_sample` plus the number `load_unaligned_reads` finds at the end of `_info` (fix cc73ffc) -/
 def restartRun (E : Env) (cfg : Config) (names : List String) (files : Saved) : Option RunOut :=
+  match readUnaligned.run files.info with
+  | some (u, _) => processSaved E cfg [u.toNat] names files
+  | none => none
+
+/-- the restart before fix cc73ffc: nothing was known about unaligned reads (kept for `restart_not_aligned_witness`) -/
+def restartRunOrig (E : Env) (cfg : Config) (names : List String) (files : Saved) : Option RunOut :=
   processSaved E cfg [] names files
 
 /-! ### `downstream` on records that carry their own `chr_id` / `assignment_id` -/
